@@ -92,10 +92,10 @@ var vcfgAltProbes = map[string][]string{
 }
 
 var vcfgLists = map[string]map[string][]string{
-	"cbs": {"empty": {}, "A": {"c198", "cdb8b"}, "B": {"c100"}, "ws": {"c198", "cws"}, "bad": {"c198", "cBAD"}},
-	"cas": {"empty": {}, "A": {"a203", "adb8a"}, "ws": {"aws"}, "bad": {"a203", "aBAD"}, "badonly": {"aBAD"}},
-	"cbd": {"A": {"dblk", "dloc"}, "B": {"doth"}, "bad": {"dblk", "dBAD"}},
-	"pbl": {"empty": {}, "A": {"p192"}, "ws": {"p192", "pws"}, "bad": {"p192", "pBAD"}},
+	"cbs": {"empty": {}, "A": {"c198", "cdb8b"}, "B": {"c100"}, "ws": {"c198", "cws"}, "bad": {"c198", "cBAD"}, "badfirst": {"cBAD", "c198"}},
+	"cas": {"empty": {}, "A": {"a203", "adb8a"}, "ws": {"aws"}, "bad": {"a203", "aBAD"}, "badfirst": {"aBAD", "a203"}, "badonly": {"aBAD"}},
+	"cbd": {"A": {"dblk", "dloc"}, "B": {"doth"}, "bad": {"dblk", "dBAD"}, "badfirst": {"dBAD", "dblk"}},
+	"pbl": {"empty": {}, "A": {"p192"}, "ws": {"p192", "pws"}, "bad": {"p192", "pBAD"}, "badfirst": {"pBAD", "p192"}},
 }
 var vcfgListKey = map[string]string{"cbs": "covert_blocklist_subnets", "cas": "covert_allowlist_subnets",
 	"cbd": "covert_blocklist_domains", "pbl": "phantom_blocklist"}
@@ -812,10 +812,10 @@ func TestVerifConfigRandom(t *testing.T) {
 			r["nc"] = pick("unset", "unset", "zero", "valid", "neg")
 			r["wk"] = pick("unset", "zero", "valid")
 		}
-		r["cbs"] = pick("unset", "empty", "A", "A", "B", "ws", "ws", "bad")
-		r["cas"] = pick("unset", "unset", "unset", "empty", "A", "ws", "bad", "badonly")
-		r["cbd"] = pick("unset", "A", "A", "B", "bad")
-		r["pbl"] = pick("unset", "empty", "A", "ws", "bad")
+		r["cbs"] = pick("unset", "empty", "A", "A", "B", "ws", "ws", "bad", "badfirst")
+		r["cas"] = pick("unset", "unset", "unset", "empty", "A", "ws", "bad", "badfirst", "badonly")
+		r["cbd"] = pick("unset", "A", "A", "B", "bad", "badfirst")
+		r["pbl"] = pick("unset", "empty", "A", "ws", "bad", "badfirst")
 		r["geo"] = pick("unset", "unset", "empty", "empty", "missing", "garbage")
 		r["pub"] = pick("unset", "true")
 		switch rng.Intn(14) {
